@@ -50,6 +50,12 @@ known("C05","C05/reparse-error/URI/Target/len300","a URI target longer than 255 
 known("C05","C05/reparse-error/CAA/Value/len300","a CAA value longer than 255 octets prints as one quoted string that the parser splits into 255-octet chunks and then rejects ('bad CAA Value')")
 fixed("C05","C05/rdata-differs/NSEC3/Salt/boundary1","9e33174","NSEC3.parse and HIP.parse converted the hex length to uint8 before halving it: salts / HITs of 128..255 octets got a wrong length field when read from text")
 fixed("C05","C05/reparse-error/X25/PSDNAddress/space","bd5e33b","X25 printed its PSDN address verbatim (no quoting) and parsed a single bare token: addresses with blanks, ';', parentheses or empty could not be read back")
+# ---- C06
+known("C06","C06/quoting/NAPTR/bare","NAPTR flags/service/regexp written as bare (unquoted) <character-string>s, which RFC 1035 s.5.1 allows, are rejected: the NAPTR parser insists on quotes")
+fixed("C06","C06/ttl/omitted-uses-$TTL/ttl-class/generate","c4c1c70","records produced by $GENERATE ignored $TTL, the last stated TTL and the configured default (always 3600)")
+fixed("C06","C06/parse-error/owner-only-escaped-specials","ce2e7fa","an entry whose owner (or any token) consists only of escaped special characters (e.g. the owner \\; ) was rejected with 'no blank after owner': the lexer did not end the run of blanks for escaped characters")
+fixed("C06","C06/parse-error/mnemonic-like-token-after-comment-in-parentheses","603cf10","a comment inside parentheses reset the lexer's 'type seen' flag, so a following RDATA token spelling a type/class mnemonic (base64 chunk AAAA) was lexed as a type and the record rejected")
+fixed("C06","C06/keyword-like-token/origin-relative/a","7b7f089","a relative $ORIGIN value that spells a type mnemonic (a, mx, ns, soa, txt, aaaa, any) was rejected, and such an origin argument of $INCLUDE was silently ignored (included records completed with the wrong origin)")
 # ---- C11
 fixed("C11","C11/accepts-altered/field/fudge-zero","a6d820e","TsigVerify substituted the default fudge 300 (and the current time) for a zero fudge / time signed found in the received TSIG, so a message whose fudge was changed from 300 to 0 still verified")
 # ---- C15
